@@ -385,9 +385,10 @@ Definition judge_np (Ts Hs oT oH oNP hot cold : list Q) (d : derived) : list Z :
       let '(mh, mc) := profiles tol np in
       let '(mh1, mc1) := profiles lo (map rNP m1) in
       let '(mh2, mc2) := profiles hi (map rNP m2) in
-      if negb (same_rows eps9 m m1 && same_rows eps9 m m2
-               && Z.eqb (close_idx eps9 mh mh1 0) (-1) && Z.eqb (close_idx eps9 mh mh2 0) (-1)
-               && Z.eqb (close_idx eps9 mc mc1 0) (-1) && Z.eqb (close_idx eps9 mc mc2 0) (-1)) then [V_FRAGILE]
+      (* exact comparison: away from a tolerance tie the three runs take the same decisions and are identical *)
+      if negb (same_rows 0 m m1 && same_rows 0 m m2
+               && Z.eqb (close_idx 0 mh mh1 0) (-1) && Z.eqb (close_idx 0 mh mh2 0) (-1)
+               && Z.eqb (close_idx 0 mc mc1 0) (-1) && Z.eqb (close_idx 0 mc mc2 0) (-1)) then [V_FRAGILE]
       else
         let rb := robust_b tol Ts Hs && robust_b lo Ts Hs && robust_b hi Ts Hs in
         let p1 := if rb then P_np tol eps9 Ts Hs oT oH oNP else 0%Z in
